@@ -166,6 +166,29 @@ def variant(ctx, case):
     return (base, nf, fails)
 
 
+def distinct_files(ctx):
+    """files whose locators differ only in case, or only in an escaped character, are different modules: each is loaded and
+    compiled, and each import gets the declarations of the file it names"""
+    from . import progs
+    cases = [("types.oal", "Types.oal"), ("lib/t.oal", "LIB/t.oal"), ("a%2Fb.oal", "a/b.oal"), ("x.oal", "x.OAL")]
+    ps = []
+    for a, b in cases:
+        ps.append({"mods": {"file:///w/main.oal": 'use "%s" as a;\nuse "%s" as b;\nres /lower on get -> <a.item>;\nres /upper on get -> <b.item>;\n' % (a, b),
+                            "file:///w/" + a: "let item = { 'first_id int };\n", "file:///w/" + b: "let item = { 'second_name str };\n"},
+                   "main": "file:///w/main.oal"})
+    for (a, b), p, r in zip(cases, ps, progs.compile_many(ps)):
+        ctx.cov["evaluations"] += 1
+        if r.get("status") != "ok":
+            ctx.violation("a program importing two different files with similar names is not compiled", {"program": p}, "ok", str(r.get("msg"))[:200])
+            continue
+        y = r.get("yaml") or ""
+        if "first_id" not in y or "second_name" not in y:
+            ctx.violation("two different files with similar names are treated as one module: an import gets the declarations of the other file",
+                          {"program": p}, "both first_id and second_name in the document", "missing: %s" % [k for k in ("first_id", "second_name") if k not in y])
+        else:
+            ctx.count("distinct_files_ok")
+
+
 def check(ctx):
     ctx.proof = core.proof_stage("C10", thorough=ctx.thorough)
     ok, out = core.ensure_runner()
@@ -262,6 +285,7 @@ def check(ctx):
         elif jm is not None:
             ctx.cov["traces_validated_against_impl"] += 1
     ctx.count("join_cases", len(jl))
+    distinct_files(ctx)
     ctx.cov["rule"] = ("layer L7: every import graph on 3 modules with ordered import lists of length <= 2 (self imports and duplicates included), "
                        "a sample of them with one missing or unparsable target, random graphs up to 8 modules (DAG-biased, defects, failing compiles, "
                        "5 path spellings per import); every case is also run with shuffled use order and re-spelled paths. join: all relative "
